@@ -887,6 +887,116 @@ func callHistory(cs Case) (all []Obs, pristine *model.ProviderInfo, fails []call
 }
 
 // ---------------------------------------------------------------------------
+// heterogeneous lists through pcache's own HTTP source: several providers per /providers
+// listing, with / without chain-level and contextual extended providers, in every order;
+// EVERY provider's expansion is compared with what the server served for THAT provider
+
+// listShapes: 0 none, 1 empty ExtendedProviders, 2 chain-level only, 3 contextual only,
+// 4 both, 5 chain-level with an own entry and short metadata
+func listRecord(pid, shape, pos int) *model.ProviderInfo {
+	tag := 100*(pos+1) + 10*shape
+	pi := &model.ProviderInfo{AddrInfo: pcdrv.AddrInfo(pid, tag), LastAdvertisementTime: "2024-01-01T00:00:01Z"}
+	chain := func() ([]peer.AddrInfo, [][]byte) {
+		return []peer.AddrInfo{pcdrv.AddrInfo(10+pid, tag+1), pcdrv.AddrInfo(pid, tag+2)}, [][]byte{{0x08, byte(pid)}, {0x09, byte(shape)}}
+	}
+	ctxs := func() []model.ContextualExtendedProviders {
+		return []model.ContextualExtendedProviders{{ContextID: "c1", Override: pid%2 == 0,
+			Providers: []peer.AddrInfo{pcdrv.AddrInfo(20+pid, tag+3)}, Metadatas: [][]byte{{0x0a, byte(pid)}}}}
+	}
+	switch shape {
+	case 1:
+		pi.ExtendedProviders = &model.ExtendedProviders{}
+	case 2:
+		xp := &model.ExtendedProviders{}
+		xp.Providers, xp.Metadatas = chain()
+		pi.ExtendedProviders = xp
+	case 3:
+		pi.ExtendedProviders = &model.ExtendedProviders{Contextual: ctxs()}
+	case 4:
+		xp := &model.ExtendedProviders{Contextual: ctxs()}
+		xp.Providers, xp.Metadatas = chain()
+		pi.ExtendedProviders = xp
+	case 5:
+		xp := &model.ExtendedProviders{}
+		xp.Providers, _ = chain()
+		xp.Metadatas = [][]byte{nil}
+		pi.ExtendedProviders = xp
+	}
+	return pi
+}
+
+type ListCase struct {
+	Shapes []int `json:"shapes"` // shape of the record of provider i, in listing order
+}
+
+type listFail struct{ sig, msg string }
+
+// runList serves the listing, lets a fresh cache preload it through the HTTP source and
+// looks every provider up; it returns per provider the observation and the served record
+func runList(lc ListCase) (obs []Obs, served []*model.ProviderInfo, fails []listFail) {
+	for i, sh := range lc.Shapes {
+		served = append(served, listRecord(i, sh, i))
+	}
+	body, err := json.Marshal(served)
+	if err != nil {
+		panic(err)
+	}
+	keyMu.Lock()
+	keyCounter++
+	key := fmt.Sprint("l", keyCounter)
+	keyMu.Unlock()
+	theServer.mu.Lock()
+	theServer.list[key] = body
+	theServer.mu.Unlock()
+	defer func() {
+		theServer.mu.Lock()
+		delete(theServer.list, key)
+		theServer.mu.Unlock()
+	}()
+	hs, err := pcache.NewHTTPSource(theServer.srv.URL, nil)
+	if err != nil {
+		panic(err)
+	}
+	hs.(interface{ AddHeader(string, string) }).AddHeader("X-Verif-Key", key)
+	pc, err := pcache.New(pcache.WithSource(hs), pcache.WithRefreshInterval(0))
+	if err != nil {
+		panic(err)
+	}
+	ctxID, md := ctxName(1), []byte{0x07, 0x01}
+	for i := range served {
+		o := func() (o Obs) {
+			defer func() {
+				if r := recover(); r != nil {
+					o = Obs{Kind: "panic", Detail: fmt.Sprint(r)}
+				}
+			}()
+			return observe(pc.GetResults(context.Background(), pcdrv.Peer(i), ctxID, md))
+		}()
+		obs = append(obs, o)
+		want := specResults(served[i], pcdrv.Peer(i), ctxID, md)
+		if o.Kind != "ok" || !itemsEqual(want, o.Items) {
+			w, _ := json.Marshal(want)
+			g, _ := json.Marshal(o)
+			fails = append(fails, listFail{fmt.Sprintf("list:expansion-not-of-the-served-record:shapes=%v:provider#%d", lc.Shapes, i),
+				fmt.Sprintf("the server's /providers listing has providers with extended-provider shapes %v (0 none, 1 empty, 2 chain-level, 3 contextual, 4 both, 5 chain-level with short metadata); GetResults for provider #%d returned %s; the expansion of the record served for THAT provider is %s", lc.Shapes, i, g, w)})
+		}
+		// the cached record itself must be the served one
+		if pi, _ := pc.Get(context.Background(), pcdrv.Peer(i)); pi != nil {
+			a, _ := json.Marshal(pi)
+			b, _ := json.Marshal(served[i])
+			var c1 model.ProviderInfo
+			json.Unmarshal(b, &c1)
+			b, _ = json.Marshal(&c1)
+			if string(a) != string(b) {
+				fails = append(fails, listFail{fmt.Sprintf("list:cached-record-not-as-served:shapes=%v:provider#%d", lc.Shapes, i),
+					fmt.Sprintf("listing shapes %v: the record cached for provider #%d is %s; the server served %s", lc.Shapes, i, a, b)})
+			}
+		}
+	}
+	return obs, served, fails
+}
+
+// ---------------------------------------------------------------------------
 
 type failRec struct {
 	idx   int
@@ -926,6 +1036,26 @@ func main() {
 	}
 
 	if c.Replay != "" {
+		var lr struct {
+			List *ListCase `json:"list"`
+		}
+		if err := c.LoadReplay(&lr); err == nil && lr.List != nil {
+			obs, served, fails := runList(*lr.List)
+			fmt.Printf("replay: /providers listing with shapes %v\n", lr.List.Shapes)
+			for i, o := range obs {
+				ob, _ := json.Marshal(o)
+				fmt.Printf("  provider #%d: %s\n", i, ob)
+				c.Eval()
+				if representable(o, served[i]) {
+					c.Case("getresults", fmt.Sprintf("GRC %s %d %s %s %s", coqRecord(served[i]), i, coqBytes(ctxName(1)), coqMd([]byte{0x07, 0x01}), coqObs(o)), map[string]interface{}{"list": lr.List, "provider": i})
+				}
+			}
+			for _, f := range fails {
+				fmt.Println("ORACLE-FAIL:", f.msg)
+				c.Fail(f.sig, f.msg, map[string]interface{}{"list": lr.List})
+			}
+			return
+		}
 		var cr struct {
 			Calls *Case `json:"calls"`
 		}
@@ -1318,6 +1448,37 @@ func main() {
 	}
 	c.CountN("call-history-failures", callFails)
 
+	// ---- stream 8: heterogeneous /providers listings through pcache's own HTTP source
+	var listCases []ListCase
+	for a := 0; a < 6; a++ {
+		for b := 0; b < 6; b++ {
+			listCases = append(listCases, ListCase{Shapes: []int{a, b}})
+			for cc := 0; cc < 6; cc += 2 {
+				listCases = append(listCases, ListCase{Shapes: []int{a, b, (a + cc) % 6}})
+			}
+		}
+	}
+	listKinds := map[string]int{}
+	for _, lc := range listCases {
+		obs, served, fails := runList(lc)
+		for i, o := range obs {
+			c.Eval()
+			c.Count("http-list-lookups")
+			if representable(o, served[i]) {
+				c.Case("getresults", fmt.Sprintf("GRC %s %d %s %s %s", coqRecord(served[i]), i, coqBytes(ctxName(1)), coqMd([]byte{0x07, 0x01}), coqObs(o)),
+					map[string]interface{}{"list": lc, "provider": i})
+			}
+		}
+		for _, f := range fails {
+			c.Count("http-list-failures")
+			kind := strings.SplitN(f.sig, ":", 3)[1]
+			if listKinds[kind] < 1 {
+				listKinds[kind]++
+				c.Fail(f.sig, f.msg, map[string]interface{}{"list": lc})
+			}
+		}
+	}
+
 	// ---- failures: one shrunk representative per class first (the driver prints the
 	// first five), then the null record, then representatives that need the contextual
 	// loop, then the remaining hand-written bodies
@@ -1359,5 +1520,5 @@ func main() {
 	}
 
 	c.Res.Exhaustive = true
-	c.Res.Rule = fmt.Sprintf("records with <=2 entries per list: providers in {the looked-up provider, another}, metadata list of length {0, n-1, n, n+1} over {nil, empty, = looked-up, different}; one list exhaustive (%d sets) x looked-up metadata {nil, empty, non-empty} with the other list fixed (chain-level; contextual x override) — all written for Coq; the full product chain x contextual x override x looked-up metadata (%d records) through the direct oracle with a seeded sample written for Coq; seeded larger records (<=6 entries per list, 0..3 contextual sets incl. duplicate / non-matching context IDs) over four delivery paths (FetchAll at preload, Fetch on a miss, each also as JSON through pcache's HTTP source); hand-written JSON bodies; unknown provider; two-step histories for one provider (v1 with extended providers cached and looked up, then a strictly newer v2 without / with other ones reported and refreshed, or both delivered to one miss by two sources): GetResults must be the expansion of v2 alone; call histories (5 lookups with different metadata / context IDs on one cache per record, each compared with the expansion for its own arguments, the source's record compared before/after). Non-trivial = the record has at least one extended provider entry", len(sets), total)
+	c.Res.Rule = fmt.Sprintf("records with <=2 entries per list: providers in {the looked-up provider, another}, metadata list of length {0, n-1, n, n+1} over {nil, empty, = looked-up, different}; one list exhaustive (%d sets) x looked-up metadata {nil, empty, non-empty} with the other list fixed (chain-level; contextual x override) — all written for Coq; the full product chain x contextual x override x looked-up metadata (%d records) through the direct oracle with a seeded sample written for Coq; seeded larger records (<=6 entries per list, 0..3 contextual sets incl. duplicate / non-matching context IDs) over four delivery paths (FetchAll at preload, Fetch on a miss, each also as JSON through pcache's HTTP source); hand-written JSON bodies; unknown provider; two-step histories for one provider (v1 with extended providers cached and looked up, then a strictly newer v2 without / with other ones reported and refreshed, or both delivered to one miss by two sources): GetResults must be the expansion of v2 alone; call histories (5 lookups with different metadata / context IDs on one cache per record, each compared with the expansion for its own arguments, the source's record compared before/after); heterogeneous /providers listings (2-3 providers with none / empty / chain-level / contextual / both / short-metadata extended providers in every order) through pcache's HTTP source, every provider looked up and its cached record compared with what was served for it. Non-trivial = the record has at least one extended provider entry", len(sets), total)
 }
